@@ -220,7 +220,7 @@ ASSUME = ['uids are strings (all backends) or ints (Memory, Redis); an int and i
 
 def main(argv):
     return run_check('C08', [StoreStream(), ObservableStream()], argv, trusted_base=TRUSTED, assumptions=ASSUME,
-                     translated=('memory', 'storage_abc', 'sql', 'sqlmodel', 'redis', 'mongo', 'pin_sql', 'pin_redis', 'pin_mongo'))
+                     translated=('memory', 'storage_abc', 'sql', 'sqlmodel', 'redis', 'mongo', 'observable', 'enfold', 'stores_on_generated', 'pin_sql', 'pin_redis', 'pin_mongo', 'pin_util'))
 
 
 if __name__ == '__main__':
